@@ -13,7 +13,7 @@
 (*   fails : every failing guard that can be evaluated independently       *)
 (*   free  : the property statements leave accept/reject open here; `ok`   *)
 (*           is what the present code does ("as coded")                   *)
-(*   ret   : returned value, ev : emitted events (own kinds only)          *)
+(*   ret   : returned value as a string ("unit", "true", ...), ev : events *)
 (*   post  : state after the call (= st whenever ~ok: host rollback)       *)
 (* Hashes are injective constructors: a signer set / message / payload is  *)
 (* named by its catalogue key; the binding makes them concrete.            *)
@@ -120,7 +120,7 @@ ApproveMessages(st, a) ==
 ValidateProofQuery(st, a) ==
     LET vp == ValidateProof(st, a.proof) IN
     IF ~vp.ok THEN [Rej(st, vp.why, {vp.why}) EXCEPT !.free = vp.free]
-    ELSE [Acc(st, vp.latest, <<>>) EXCEPT !.free = vp.free]
+    ELSE [Acc(st, IF vp.latest THEN "true" ELSE "false", <<>>) EXCEPT !.free = vp.free]
 
 (* rotate_signers(signers, proof, bypass_rotation_delay) *)
 RotateGuards(st, a, vp) ==
@@ -164,8 +164,8 @@ ValidateMessage(st, a) ==
             /\ Msgs[cur].src = a.src /\ Msgs[cur].dest = a.caller /\ Msgs[cur].ph = a.ph
          THEN Acc([st EXCEPT !.status[a.key] = "executed",
                              !.execCount[a.key] = @ + 1],
-                  TRUE, <<[k |-> "message_executed", msg |-> cur]>>)
-         ELSE Acc(st, FALSE, <<>>)
+                  "true", <<[k |-> "message_executed", msg |-> cur]>>)
+         ELSE Acc(st, "false", <<>>)
 
 (* call_contract(caller, destination_chain, destination_address, payload) *)
 CallContract(st, a) ==
